@@ -47,7 +47,7 @@ def run(ctx):
     samples = []
     n = 60 if ctx.quick() else 3000
     # directed first: nested | and & whose direct members hold no value-dependent type, arms of different bounds
-    for dp in D.directed_nested_programs(ctx.rng):
+    for dp in D.directed_nested_programs(ctx.rng) + D.directed_multipos_programs(ctx.rng):
         wd = world_from(dp["spec"])
         bd = progs.Built(wd, dp["defs"], utab=dp["utab"])
         for call in dp["calls"]:
